@@ -427,3 +427,38 @@ def resolve(path: Path, keep=()) -> Path:
         else:
             out.append(ev)
     return tuple(out)
+
+
+def feasible(path: Path) -> bool:
+    """False when a (resolved) branch fact of the path is a closed comparison of constants that contradicts the branch taken -
+    `None is not None` taken as true after `x = None`, `0 > 0`, ... - or when the same fact is taken both ways"""
+    seen: Dict[str, bool] = {}
+    for ev in path:
+        if ev[0] != "cond":
+            continue
+        if seen.get(ev[1], ev[2]) != ev[2]:
+            return False
+        seen[ev[1]] = ev[2]
+        try:
+            t = ast.parse(ev[1], mode="eval").body
+        except SyntaxError:
+            continue
+        for atom, tv in canon_test(t, ev[2]):
+            try:
+                a = ast.parse(atom, mode="eval").body
+            except SyntaxError:
+                continue
+            if isinstance(a, ast.Compare) and len(a.ops) == 1 and isinstance(a.left, ast.Constant) and isinstance(a.comparators[0], ast.Constant):
+                l, r = a.left.value, a.comparators[0].value
+                op = a.ops[0]
+                try:
+                    val = {ast.Is: l is r, ast.IsNot: l is not r, ast.Eq: l == r, ast.NotEq: l != r}.get(type(op))
+                    if val is None and isinstance(l, (int, float)) and isinstance(r, (int, float)):
+                        val = {ast.Lt: l < r, ast.LtE: l <= r, ast.Gt: l > r, ast.GtE: l >= r}.get(type(op))
+                except Exception:
+                    val = None
+                if val is not None and val != tv:
+                    return False
+            if isinstance(a, ast.Constant) and isinstance(a.value, (bool, type(None), int, str)) and bool(a.value) != tv:
+                return False
+    return True
